@@ -101,6 +101,17 @@ def run(out, tier):
         docs.append(('<svg xmlns="http://www.w3.org/2000/svg" viewBox="0 0 16 16"><clipPath id="c">'
                      '<path d="M2,2 h10 v10 h-10 z M5,5 h4 v4 h-4 z"/></clipPath>'
                      '<rect width="16" height="16" clip-path="url(#c)"/></svg>', {}))
+        # values that are normalised per shape (a once-only initialisation would serve the first shape of
+        # the process only)
+        docs.append(('<svg xmlns="http://www.w3.org/2000/svg" viewBox="0 0 16 16"><rect width="5" height="5" opacity="1.7" '
+                     'fill="red"/><rect x="6" width="5" height="5" fill-opacity="2.5"/><rect y="6" width="5" height="5" '
+                     'stroke="blue" stroke-opacity="-1" opacity="3"/></svg>', {}))
+        # attributes nobody knows on a <use>, and the same attributes on a group above passed-through text
+        docs.append(('<svg xmlns="http://www.w3.org/2000/svg" xmlns:xlink="http://www.w3.org/1999/xlink" viewBox="0 0 16 16">'
+                     '<defs><rect id="r" width="4" height="4"/></defs><use xlink:href="#r" font-size="12" font-family="serif" '
+                     'letter-spacing="2" x="3"/><rect x="9" y="9" width="4" height="4"/></svg>', {}))
+        docs.append(('<svg xmlns="http://www.w3.org/2000/svg" viewBox="0 0 16 16"><g font-size="12" font-family="serif" '
+                     'letter-spacing="2"><rect width="4" height="4"/><text x="1" y="12">t</text></g></svg>', {"allow_text": True}))
         good = len(docs)
         # conversions that raise, to be interleaved
         docs.append(('<svg xmlns="http://www.w3.org/2000/svg"><filter id="f"/><rect width="2" height="2" filter="url(#f)"/></svg>', {}))
